@@ -6,6 +6,7 @@ import (
 	"os"
 
 	"verif/ops"
+	"verif/pagewalk"
 	"verif/pg"
 	"verif/sim"
 	"verif/sq"
@@ -45,7 +46,18 @@ func runC12(c *sim.Ctx) {
 		prof.RowsHi = 250
 		prof.MaxTables = 3
 	}
-	img, snap, _ := buildImage(c, prof, s.Draw(4, "steps"))
+	if s.Chance(1, 5, "dangling-index") {
+		runC12Dangling(c)
+		return
+	}
+	img, snap, u := buildImage(c, prof, s.Draw(4, "steps"))
+	roots := []int{1}
+	for _, m := range snap.Master {
+		if m.Rootpage > 0 {
+			roots = append(roots, m.Rootpage)
+		}
+	}
+	btreePages := pagewalk.BtreePages(img, u, roots)
 	family := readFamily(s, snap, true)
 	cache := cacheKnob[s.Draw(len(cacheKnob), "cache")]
 	c.Log.Add("sim", "image", "bytes=%d ops=%d cache=%d", len(img), len(family), cache)
@@ -109,9 +121,9 @@ func runC12(c *sim.Ctx) {
 					break
 				}
 			}
-			for kind := 0; kind < 2; kind++ {
+			for kind := 0; kind < 3; kind++ {
 				sticky := (k+kind)%2 == 0
-				m := &pg.Mem{Image: img, FailKind: kind, FailSticky: sticky}
+				m := &pg.Mem{Image: img, FailKind: kind, FailSticky: sticky, BtreePages: btreePages}
 				h, err := open(m)
 				if err != nil {
 					c.Troublef("open failed: %v", err)
@@ -120,9 +132,11 @@ func runC12(c *sim.Ctx) {
 				m.FailAt = k
 				r := ops.Run(h.d, op, nil)
 				c.Eval(1)
-				kname := []string{"read-error", "short-read"}[kind]
+				kname := []string{"read-error", "short-read", "bad-page-type"}[kind]
 				if m.Fired {
 					c.Fault(kname)
+				} else if kind == 2 {
+					c.Inc("bad_page_type_not_applicable", 1) // page 1 or an overflow page
 				} else {
 					c.Inc("fault_not_fired", 1)
 				}
@@ -209,13 +223,16 @@ func init() {
 	sim.Register(&sim.Prop{
 		ID: "C12", Engine: "E-PAGE", Level: "fault_enumeration", Fn: runC12, NewEnv: NewEnv,
 		Runs: map[string]int{"quick": 256, "thorough": 3200},
-		Rule: "per run: a database written by real SQLite through a drawn history (page size 512/1024/4096, rowid + WITHOUT ROWID tables, indexes, overflow rows) is served from a simulated disk; for EVERY read operation (8 high-level + low-level scans, keys drawn from stored values) first a fault-free execution (n reads), then one faulted execution for every k in 1..n (stride-sampled above 400/4000) x {I/O error, short read} x {transient, permanent}, plus lock failure; evaluations = faulted executions; a run is non-trivial when some operation performs >1 page read; distinct = distinct event logs",
+		Rule: "per run: a database written by real SQLite through a drawn history (page size 512/1024/4096, rowid + WITHOUT ROWID tables, indexes, overflow rows) is served from a simulated disk; for EVERY read operation (8 high-level + low-level scans, keys drawn from stored values) first a fault-free execution (n reads), then one faulted execution for every k in 1..n (stride-sampled above 400/4000) x {I/O error, short read, b-tree page arriving with an invalid page type} x {transient, permanent}, plus lock failure; one run in five instead builds a well-formed database whose index disagrees with its table (entries without rows) and requires the index-ordered and equality selects to deliver the rows up to the first such entry and then an error; evaluations = faulted executions; a run is non-trivial when some operation performs >1 page read; distinct = distinct event logs",
 		Real: append([]string{"btree/record/schema/select code paths on the in-memory simulated disk"}, realAll...),
 		Stub: []string{"file pager replaced by pg.Mem (same copy semantics, same short-read-at-EOF behaviour); POSIX locks replaced by counters"},
 		Assumptions: []string{"a fault the reader can detect = pager returns an error (I/O error) or a zero-padded buffer with io.EOF (what mmap.ReaderAt does)", "operations that already fail fault-free (definitions sqlittle rejects) are skipped and counted"},
 		MaxRunSecs: 300,
 		Vacuity: func(st map[string]int64, runs int, tier string) error {
 			fired := st["fault.read-error"] + st["fault.short-read"]
+			if st["fault.bad-page-type"] == 0 || st["probe.dangling-entry-reported"] == 0 {
+				return fmt.Errorf("bad-page-type fired %d times, dangling entries reported %d times", st["fault.bad-page-type"], st["probe.dangling-entry-reported"])
+			}
 			if fired == 0 || st["fault_not_fired"]*100 > fired {
 				return fmt.Errorf("faults fired in only %d of %d executions", fired, fired+st["fault_not_fired"])
 			}
